@@ -10,11 +10,11 @@ CLAIMED = {
     "C04": ("proof",
             "Coq proof (induction over strings) of escape/un-escape inversion on the translator-extracted replace chains + "
             "extracted-model/implementation correspondence (lexer, quoting) + exhaustive small-scope search on the implementation",
-            "Theorems in coq/theories/Properties/C04.v (14): the escape chain extracted from emitter.py and the single-pass un-escape "
+            "Theorems in coq/theories/Properties/C04.v (15): the escape chain extracted from emitter.py and the single-pass un-escape "
             "(map + pattern extracted from lexer.py) are proved inverse for EVERY string (unconditional since repo fix 4b61c18; the old sequential "
             "reader is refuted); C04_scalars_survive_text_core and C04_bare_strings_survive_text_core3: null, booleans, numbers, quoted strings and "
             "bare-emitted strings (plain, dotted, dashed words, $VAR) keep value and kind through the emitted text at every nesting depth, in lists "
-            "and in META; C04_scalars_in_lists_and_maps_core4: all four positions incl. nested list items and inline-map values whenever the extracted shape check accepts the emitted text; reserved-word segments (true.x) are a closed counterexample outside the safe class (known finding); pins tie the hand-written quoting/lexer model to the "
+            "and in META; C04_scalars_survive_text_core4: all four positions incl. nested list items and inline-map values at text level (lexer half Rt/LexLink4*.v); reserved-word segments (true.x) are a closed counterexample outside the safe class (known finding); pins tie the hand-written quoting/lexer model to the "
             "current regex texts and tables. The faithful lexer model and the quoting model are run against the implementation on "
             "every run; the property itself is evaluated on the implementation exhaustively for short strings in all four positions; values set through octave_write(changes) over an EXISTING value for every ordered pair of close scalars.",
             "Trusted: Coq kernel, translator, ExtrOcamlBasic extraction + OCaml driver, CPython int/float/repr, unicodedata as oracle. "
